@@ -2,6 +2,7 @@ import Mingus.Model.Notes
 import Mingus.Model.Keys
 import Mingus.Model.Intervals
 import Mingus.Model.Scales
+import Mingus.Model.Chords
 /- Line-protocol dispatch: function name + decoded arguments → observation. -/
 namespace Mingus
 open Val
@@ -89,7 +90,20 @@ def dispatchScales : String → List Val → Option Val
   | "scales.determine", [list ns] => some (toVal (Scales.determine (strList ns)))
   | _, _ => none
 
+def dispatchChords : String → List Val → Option Val
+  | "chords.from_shorthand", [str x] => some (toVal (Chords.fromShorthand x))
+  | "chords.from_shorthand_list", [list xs] => some (toVal ((strList xs).mapM Chords.fromShorthand))
+  | "chords.builder", [str name, str root] => some (toVal (Chords.builderByName name root))
+  | "chords.tables", [] =>
+      some (.list [toVal (Chords.chordShorthand.map (·.1)), toVal (Chords.chordMeaning.map (·.1))])
+  | "chords.meaning", [str k] => some (toVal (Chords.chordMeaning.lookup k))
+  | "chords.triads", [str k] => some (toVal (Chords.triads k))
+  | "chords.sevenths", [str k] => some (toVal (Chords.sevenths k))
+  | "chords.function", [str name, str k] => some (toVal (Chords.chordFunction name k))
+  | _, _ => none
+
 def dispatch (fn : String) (args : List Val) : Option Val :=
+  (dispatchChords fn args).orElse fun _ =>
   (dispatchScales fn args).orElse fun _ =>
   (dispatchNotes fn args).orElse fun _ =>
   (dispatchKeys fn args).orElse fun _ =>
